@@ -279,9 +279,7 @@ class SqlImpl(TableImpl):
 
             arrange = expr.context_kwargs.get("arrange")
             if arrange:
-                order_by = dedup_order_by(
-                    cls.compile_order(order, sqa_expr) for order in arrange if not is_const_order(order)
-                )
+                order_by = dedup_order_by(cls.compile_order(order, sqa_expr) for order in arrange)
             else:
                 order_by = None
 
@@ -361,9 +359,7 @@ class SqlImpl(TableImpl):
                 sel = sel.offset(query.offset)
 
         if query.order_by:
-            sel = sel.order_by(
-                *dedup_order_by(cls.compile_order(ord, sqa_expr) for ord in query.order_by if not is_const_order(ord))
-            )
+            sel = sel.order_by(*dedup_order_by(cls.compile_order(ord, sqa_expr) for ord in query.order_by))
 
         sel = sel.with_only_columns(*(sqa_expr[uid] for uid in query.select))
 
@@ -635,12 +631,6 @@ class SqlImpl(TableImpl):
         return True
 
 
-# A constant does not influence the ordering, but SQL interprets an integer literal in
-# ORDER BY as the position of a result column.
-def is_const_order(order: Order) -> bool:
-    return types.is_const(order.order_by.dtype())
-
-
 # MSSQL complains about duplicates in ORDER BY.
 def dedup_order_by(
     order_by: Iterable[sqa.UnaryExpression],
@@ -652,6 +642,22 @@ def dedup_order_by(
         peeled = ord
         while isinstance(peeled, sqa.UnaryExpression) and peeled.modifier is not None:
             peeled = peeled.element
+
+        # A literal does not influence the ordering, but SQL interprets an integer
+        # literal in ORDER BY as the position of a result column.
+        value = peeled
+        while True:
+            if isinstance(value, sqa.Label):
+                value = value.element
+            elif isinstance(value, sqa.Cast):
+                value = value.clause
+            elif isinstance(value, sqa.BinaryExpression) and value.operator is sqa.sql.operators.collate:
+                value = value.left
+            else:
+                break
+        if isinstance(value, sqa.BindParameter | sqa.sql.elements.Null):
+            continue
+
         if peeled not in occurred:
             new_order_by.append(ord)
             occurred.add(peeled)
